@@ -135,10 +135,18 @@ def run(ctx):
             lines.append([rng.choice(BF_POOL) if rng.random() < 0.8 else repr(round(rng.random(), rng.randint(1, 9))),
                           [rng.choice(names) for _ in range(rng.randint(0 if rng.random() < 0.1 else 1, 4))],
                           rng.random() < 0.3, rng.choice(gen.MODEL_CHOICES)])
+        defs_ = []
+        if rng.random() < 0.35:
+            # model parameters written as Define'd names (also negated): the parameters shown are the stored values
+            defs_ = [["define", "dm", rng.choice(["0.507e12", "0.5", "-2E-4"])], ["define", "beta", rng.choice(["0.39", "1", "3.14159"])]]
+            for l in rng.sample(lines, min(len(lines), rng.choice([1, 2]))):
+                l[3] = ["named", rng.choice(["VSS_BMIX", "SSD_CP", "HELAMP"]), [["word", "dm"], ["num", "1.0"], ["word", "-beta"], ["word", "free_text"]]]
         if rng.random() < 0.1:
             for l in lines:
                 l[0] = "0"     # all-zero table: division by zero when normalising or scaling
         doc = [["decay", mother, lines]]
+        if defs_:
+            doc = (defs_ + doc) if rng.random() < 0.5 else (doc + defs_)
         if rng.random() < 0.3:
             doc.insert(0, ["decay", "Other", [["1.0", ["x"], False, ["named", "PHSP", None]]]])
         # tables derived from the printed one (a conjugate through CDecay, a copy through CopyDecay) in the same file: printed
